@@ -51,8 +51,16 @@ CLAIMS = {
                     'table and only command-line parsers call it (WHOSETS); flag spellings and their wiring (FLAGS); writer/reader '
                     'mode agreement per kind (RW); ' + IEF + ' (the assertion methods).',
             'technique': 'interprocedural effect summaries with path provenance and guard chains; guard-chain queries; registries'},
-    'C11': {'text': IEF + ' gentest()/gentest_wrapper().',
-            'technique': 'call-graph reachability + definite-assignment walk + arity check (AST)'},
+    'C11': {'text': 'date construction from parsed numbers is guarded (EXC); every slot of the script template gets text of the class its '
+                    'Python context needs (TEMPLATE); every write/delete stays under the reference directory or is the script (EFFECTS); '
+                    'one test per file on every path (MUSTEMIT); emitted path expressions denote the original path (JOINREPR); dynamic '
+                    'attribute names exist (ATTRS); ' + IEF + ' gentest()/gentest_wrapper().',
+            'technique': 'template-slot context classification, effect summaries with provenance, typestate walk, abstract interpretation of as_join_repr on a path grid'},
+    'C12': {'text': 'one assertion per stream/file, each stream test exactly under its flag (ONEASSERT); actual and reference arguments come '
+                    'from different sources (ROLES); the instantiated header runs the command once after removing old outputs and its tests '
+                    'read that result (ORDER); exit code and files of run 1 (EXITCODE); unique test names (UNIQUE); strict decoding (STRICT); '
+                    'exclusions only from run differences and machine-specific strings (EXCLPROV).',
+            'technique': 'typestate walk, straight-line def-use closures, parsing the instantiated script template with ast'},
     'C15': {'text': 'artefacts are written only under tmp_dir with relative-safe names (TMPDIR), only under a difference predicate or '
                     'a missing-file handler (ONLYFAIL); actual-side and expected-side bookkeeping are exact mirrors (MIRROR); '
                     'suggested commands name caller paths or files written (CMDFILES).',
